@@ -768,6 +768,113 @@ Proof.
     apply (frac_phase_eq fr1 s2 P2).
   - cbn [bind]. apply (frac_phase_eq fr s1 P1').
 Qed.
+(** ** facts about the *result* of the model's [parse_mantissa] (for the callers of
+    [rs_parse_mantissa_eq]): the limbs are u64 and the length is bounded by the number of bytes *)
+Lemma pm_round_up_facts : forall l s s3 hit,
+  limbs_ok (vl (pm_result s)) -> pm_round_up c l s = Ok (s3, hit) ->
+  limbs_ok (vl (pm_result s3)) /\ zlen (vl (pm_result s3)) <= zlen (vl (pm_result s)) + 2.
+Proof.
+  induction l as [|d r IH]; intros s s3 hit Hl; cbn [pm_round_up].
+  - intros [= <- <-]. split; [exact Hl|lia].
+  - destruct (negb (d =? 48)); [|apply IH; exact Hl].
+    destruct (pm_mul_add c (pm_result s) 10 1) as [r1| |] eqn:E; cbn [bind]; try discriminate.
+    intros [= <- <-]. cbn [pm_result]. exact (pm_mul_add_facts _ _ _ _ Hl u64_10 u64_1 E).
+Qed.
+
+Definition finm_facts (finm : list Z -> pm_state -> outcome Ret) : Prop :=
+  forall l s2 v cnt, limbs_ok (vl (pm_result s2)) -> finm l s2 = Ok (v, cnt) ->
+  limbs_ok (vl v) /\ zlen (vl v) <= zlen (vl (pm_result s2)) + 2.
+
+Lemma finm_int_facts fr : finm_facts (finm_int fr).
+Proof.
+  intros l s2 v cnt Hl. unfold finm_int.
+  destruct (pm_round_up c l s2) as [[s3 hit]| |] eqn:E; cbn [bind]; try discriminate.
+  destruct hit.
+  - intros [= <- <-]. exact (pm_round_up_facts l s2 s3 true Hl E).
+  - apply pm_round_up_miss in E. subst s3.
+    destruct (pm_round_up c fr s2) as [[s4 h]| |] eqn:E2; cbn [bind]; try discriminate.
+    intros [= <- <-]. exact (pm_round_up_facts fr s2 s4 h Hl E2).
+Qed.
+
+Lemma finm_frac_facts : finm_facts finm_frac.
+Proof.
+  intros l s2 v cnt Hl. unfold finm_frac.
+  destruct (pm_round_up c l s2) as [[s3 hit]| |] eqn:E; cbn [bind]; try discriminate.
+  intros [= <- <-]. exact (pm_round_up_facts l s2 s3 hit Hl E).
+Qed.
+
+Lemma pm_finish_facts finm k l s v cnt :
+  finm_facts finm -> pinv k l s ->
+  (s2 <- pm_flush_end c T b s ;; r <- finm l s2 ;; Ok (inr r)) = Ok (@inr pm_state Ret (v, cnt)) ->
+  limbs_ok (vl v) /\ zlen (vl v) <= N + 3.
+Proof.
+  intros Hf P.
+  destruct (pm_flush_end c T b s) as [s2| |] eqn:E2; cbn [bind]; try discriminate.
+  destruct (pm_flush_end_facts k l s s2 P E2) as ((F1 & F2 & F3 & F4 & Fk) & _).
+  destruct (finm l s2) as [[v' cnt']| |] eqn:E3; cbn [bind]; try discriminate.
+  intros [= <- <-]. destruct (Hf l s2 v' cnt' F1 E3) as [O Len].
+  pose proof (zlen_nonneg l). split; [exact O|lia].
+Qed.
+
+Lemma pm_gen_inr finm k : finm_facts finm -> forall l s v cnt,
+  pinv k l s -> pm_gen finm l s = Ok (inr (v, cnt)) ->
+  limbs_ok (vl v) /\ zlen (vl v) <= N + 3.
+Proof.
+  intros Hf.
+  induction l as [|ch r IH]; intros s v cnt P; rewrite pm_gen_unfold; destruct (cond s) eqn:Hc.
+  - rewrite pm_settle_read by exact Hc. cbn [bind]. discriminate.
+  - destruct (Z.eq_dec (pm_count s) maxd) as [Hm|Hm].
+    + rewrite pm_settle_finish by assumption. cbn [bind]. apply (pm_finish_facts finm k [] s v cnt Hf P).
+    + rewrite (pm_settle_flush k [] s Hc Hm P). rewrite bind_assoc.
+      destruct (pm_flush_max c s) as [s1| |] eqn:E; cbn [bind]; discriminate.
+  - rewrite pm_settle_read by exact Hc. cbn [bind].
+    destruct (pm_add_digit b ch s) as [s2| |] eqn:E; cbn [bind]; try discriminate.
+    destruct (pinv_add_digit k ch r s s2 P (cond_count _ Hc) E) as [P2 _]. apply IH. exact P2.
+  - destruct (Z.eq_dec (pm_count s) maxd) as [Hm|Hm].
+    + rewrite pm_settle_finish by assumption. cbn [bind].
+      apply (pm_finish_facts finm k (ch :: r) s v cnt Hf P).
+    + rewrite (pm_settle_flush k (ch :: r) s Hc Hm P). rewrite bind_assoc.
+      destruct (pm_flush_max c s) as [s1| |] eqn:E; cbn [bind]; try discriminate.
+      destruct (pinv_flush_max k (ch :: r) s s1 P Hc Hm E) as (P' & Hc2 & _).
+      destruct (pm_add_digit b ch s1) as [s2| |] eqn:E2; cbn [bind]; try discriminate.
+      destruct (pinv_add_digit k ch r s1 s2 P' (cond_count _ Hc2) E2) as [P2 _]. apply IH. exact P2.
+Qed.
+
+Lemma pm_frac_facts l s v cnt :
+  pinv 0 l s -> pm_frac c T b maxd l s = Ok (v, cnt) ->
+  limbs_ok (vl v) /\ zlen (vl v) <= N + 3.
+Proof.
+  intros P. rewrite pm_frac_gen.
+  destruct (pm_gen finm_frac l s) as [[s3|[v' cnt']]| |] eqn:E; cbn [bind]; try discriminate.
+  - destruct (pm_gen_inl finm_frac 0 l s s3 P E) as [P3 _].
+    destruct (pm_flush_end c T b s3) as [s4| |] eqn:E4; cbn [bind]; try discriminate.
+    destruct (pm_flush_end_facts 0 [] s3 s4 P3 E4) as ((F1 & F2 & F3 & F4 & Fk) & _).
+    intros [= <- <-]. rewrite (@zlen_nil Z) in F4. split; [exact F1|lia].
+  - intros [= <- <-]. exact (pm_gen_inr finm_frac 0 finm_frac_facts l s v' cnt' P E).
+Qed.
+
+Lemma parse_mantissa_result_facts_N (i fr : list Z) v cnt :
+  0 <= maxd -> zlen i + zlen fr <= N ->
+  parse_mantissa c T L b i fr maxd = Ok (v, cnt) ->
+  limbs_ok (vl v) /\ zlen (vl v) <= N + 3.
+Proof.
+  intros Hm Hn. unfold parse_mantissa. rewrite pm_int_gen.
+  pose proof (pinv_init i fr Hm Hn) as P0.
+  destruct (pm_gen (finm_int fr) i (mkPm 0 0 0 (vnew L))) as [[s1|[v' cnt']]| |] eqn:E; cbn [bind];
+    try discriminate.
+  - destruct (pm_gen_inl (finm_int fr) (zlen fr) i _ s1 P0 E) as [P1 Hc1].
+    assert (P1' : pinv 0 fr s1).
+    { destruct P1 as (H1 & H2 & H3 & H4 & H5 & H6 & Hk). rewrite (@zlen_nil Z) in H5.
+      pose proof (zlen_nonneg fr). unfold pinv. repeat split; try assumption; try lia; apply H6. }
+    destruct (pm_count s1 =? 0).
+    + destruct (pm_skip b fr s1) as [[s2 fr1]| |] eqn:E2; cbn [bind]; try discriminate.
+      destruct (pm_skip_facts fr s1 s2 fr1 P1' (cond_count _ Hc1) E2) as [P2 _].
+      apply (pm_frac_facts fr1 s2 v cnt P2).
+    + cbn [bind]. apply (pm_frac_facts fr s1 v cnt P1').
+  - intros [= <- <-].
+    exact (pm_gen_inr (finm_int fr) (zlen fr) (finm_int_facts fr) i _ v' cnt' P0 E).
+Qed.
+
 End PM.
 
 (** ** a negative [maxd] (not a `usize`; for completeness): the source spins on
@@ -817,6 +924,21 @@ Proof.
   destruct (Z_lt_le_dec maxd 0) as [Hneg|Hpos].
   - destruct (parse_mantissa_neg c T L b i fr maxd Hneg) as [-> ->]. reflexivity.
   - apply (rs_parse_mantissa_eq_N c T L b maxd HT (zlen i + zlen fr) HN i fr Hpos). lia.
+Qed.
+
+(** the result of the model's [parse_mantissa] (hence, by [rs_parse_mantissa_eq], of the source's):
+    u64 limbs, and at most [bytes + 3] of them *)
+Lemma parse_mantissa_result_facts : forall c T L b i fr maxd v cnt,
+  (compact c = false -> limbs_ok (SMALL_INT_POW10 T)) ->
+  zlen i + zlen fr + 1 < 2 ^ 64 ->
+  parse_mantissa c T L b i fr maxd = Ok (v, cnt) ->
+  limbs_ok (vl v) /\ zlen (vl v) <= zlen i + zlen fr + 3.
+Proof.
+  intros c T L b i fr maxd v cnt HT HN E.
+  destruct (Z_lt_le_dec maxd 0) as [Hneg|Hpos].
+  - destruct (parse_mantissa_neg c T L b i fr maxd Hneg) as [_ E']. rewrite E' in E. discriminate.
+  - apply (parse_mantissa_result_facts_N c T L b maxd HT (zlen i + zlen fr) i fr v cnt Hpos
+             ltac:(lia) E).
 Qed.
 
 (** with the crate's tables; [2 ^ 63] is the bound that Rust slices satisfy *)
@@ -874,3 +996,4 @@ Proof. vm_compute. repeat split. Qed.
 
 Print Assumptions rs_parse_mantissa_eq.
 Print Assumptions rs_parse_mantissa_eq_TABLES.
+Print Assumptions parse_mantissa_result_facts.
